@@ -101,7 +101,7 @@ def deep_hash(ent: EntityDef, memo: dict | None = None) -> str:
         return memo[id(ent)]
     p = proj_ent(ent)
     p['bases'] = [deep_hash(b, memo) if isinstance(b, EntityDef) else 'str:' + b for b in ent.bases]
-    h = hashlib.sha1(json.dumps(p, sort_keys=True).encode()).hexdigest()[:16]
+    h = hashlib.sha1(repr(p).encode()).hexdigest()[:16]
     memo[id(ent)] = h
     return h
 
@@ -189,24 +189,29 @@ class World:
             cls = names.get(a['e'], a['e'])
             try:
                 got = EntityDef.engine_def(cls)
-            except KeyError:
-                rec.update(exc='KeyError', res=0, resdb=0, bases=[], defh='')
+            except Exception as exc:    # KeyError is the documented answer for an unknown class
+                rec.update(exc=type(exc).__name__, res=0, resdb=0, bases=[], defh='', copy=True)
             else:
                 rec['created'] = self.absorb(start)
                 start = len(self.watch.log)
                 key = cls.casefold()
-                k = next(i for i, db in enumerate(self.dbs) if key in db.ent_map)
-                own = self.dbs[k].ent_map[key]
+                k = next((i for i, db in enumerate(self.dbs) if key in db.ent_map), -1)
+                own = self.dbs[k].ent_map[key] if k >= 0 else None
                 rec.update(exc='', resdb=k + 1, res=self.token(own),
-                           bases=[self.token(b) for b in own.bases],
+                           bases=[self.token(b) for b in own.bases] if isinstance(own, EntityDef) else [],
                            defh=deep_hash(got), copy=got is not own, cls_ok=got.classname.casefold() == key)
                 poke(got)
         elif a['op'] == 'loadall':
-            whole = FGD.engine_dbase()
-            rec.update(exc='', count=len(whole.entities),
-                       defs={key: deep_hash(ent) for key, ent in sorted(whole.entities.items())})
-            for ent in whole.entities.values():
-                poke(ent)
+            try:
+                whole = FGD.engine_dbase()
+            except Exception as exc:
+                rec.update(exc=type(exc).__name__, count=0, defs={})
+            else:
+                memo: dict = {}
+                rec.update(exc='', count=len(whole.entities),
+                           defs={key: deep_hash(ent, memo) for key, ent in sorted(whole.entities.items())})
+                for ent in whole.entities.values():
+                    poke(ent)
         elif a['op'] == 'classes':
             rec.update(exc='', classes=sorted(EntityDef.engine_classes()))
         else:
@@ -269,9 +274,12 @@ def describe_db(blob: bytes, keyof=lambda s: s.casefold()) -> dict:
                 hot.update((e, b))
             if b != CBASE:
                 hot.add(e)
-    full_db = EDB.unserialise(io.BytesIO(blob))
-    whole = full_db.get_fgd()
-    full = {key: deep_hash(ent) for key, ent in whole.entities.items()}
+    try:
+        whole = EDB.unserialise(io.BytesIO(blob)).get_fgd()
+        memo: dict = {}
+        full = {key: deep_hash(ent, memo) for key, ent in whole.entities.items()}
+    except Exception as exc:    # the full load itself fails: no query can then agree with it
+        full = {key: f'full load failed: {type(exc).__name__}' for key in bases}
     return {'blocks': blocks, 'bases': bases, 'cbase': CBASE, 'full': full, 'hot': sorted(hot),
             'blk': {e: i + 1 for e, i in blk.items()},
             'nents': len(bases), 'cross': sorted(e for e in hot if any(blk.get(b) != blk.get(e) for b in bases[e] if b != CBASE))}
@@ -325,11 +333,15 @@ def synth_world_desc(dbs: list, blobs: list) -> list:
     out = []
     for desc, blob in zip(dbs, blobs):
         conc = {e: n.casefold() for e, n in synth_names(desc).items()}
-        whole = EDB.unserialise(io.BytesIO(blob)).get_fgd()
+        try:
+            whole = EDB.unserialise(io.BytesIO(blob)).get_fgd()
+            full = {conc[e]: deep_hash(whole.entities[conc[e]]) for e in conc}
+        except Exception as exc:
+            full = {conc[e]: f'full load failed: {type(exc).__name__}' for e in conc}
         out.append({'blocks': [[conc[e] for e in blk] for blk in desc['blocks']],
                     'bases': {conc[e]: [conc[b] for b in bs] for e, bs in desc['bases'].items()},
                     'cbase': conc[desc['cbase']],
-                    'full': {conc[e]: deep_hash(whole.entities[conc[e]]) for e in conc}})
+                    'full': full})
     return out
 
 
@@ -434,6 +446,489 @@ def db_replay(replay_file: str, out: hlib.RecWriter) -> None:
     F._ENGINE_DB = None
 
 
+# =========================================================================== the codec half
+HELPER_VARIANTS = [
+    # (name, [argument lists]) - every helper type with the argument shapes its parser accepts
+    ('halfgridsnap', [[]]),
+    ('size', [['-8 -8 -8', '8 8 8'], ['16 16 16'], ['8 8 8', '-8 -8 0']]),
+    ('bbox', [['-4 -4 -4', '4 4 12']]),
+    ('color', [['255 128 0'], ['0.5 1 0']]),
+    ('sphere', [[], ['radius'], ['inner', '255 0 0'], ['r2', '255 255 255']]),
+    ('line', [['255 255 255', 'targetname', 'target'], ['0 255 0', 'targetname', 'a', 'targetname', 'b']]),
+    ('frustum', [[], ['fov', 'near', 'far', 'col', '-1'], ['45', '8', '1024', '255 255 255', '2.5'], ['fov', 'near']]),
+    ('cylinder', [['255 255 255', 'targetname', 'a'], ['255 0 0', 'targetname', 'a', 'rad'],
+                  ['255 0 0', 'targetname', 'a', 'rad', 'targetname', 'b'],
+                  ['255 0 0', 'targetname', 'a', 'rad', 'targetname', 'b', 'rad2']]),
+    ('origin', [[], ['origin'], ['pos']]),
+    ('vecline', [[], ['end']]),
+    ('sidelist', [[], ['faces']]),
+    ('wirebox', [['mins', 'maxs']]),
+    ('sweptplayerhull', [[]]),
+    ('obb', [['mins', 'maxs']]),
+    ('iconsprite', [[], ['editor/obsolete.vmt'], ['"sprites/a b.vmt"']]),
+    ('studio', [[], ['models/editor/axis_helper.mdl']]),
+    ('studioprop', [[], ['models/x.mdl']]),
+    ('lightprop', [[], ['models/editor/spot.mdl']]),
+    ('sprite', [[], ['sprites/glow']]),
+    ('instance', [[]]), ('decal', [[]]), ('overlay', [[]]), ('overlay_transition', [[]]), ('light', [[]]),
+    ('lightcone', [[], ['_in'], ['_in', '_out'], ['_in', '_out', '_col'], ['_in', '_out', '_col', '2'],
+                   ['_inner_cone', '_cone', '_light', '-1.5']]),
+    ('keyframe', [[], ['name']]),
+    ('animator', [[]]), ('quadbounds', [[]]), ('worldtext', [[]]), ('catapult', [[]]),
+    ('lightconenew', [['theta', 'phi', 'col']]),
+    ('appliesto', [['P2'], ['TF2', 'CSGO'], []]),
+    ('orderby', [['k2', 'k1']]),
+]
+
+
+def make_helper(name: str, args: list[str], known: bool = True):
+    if not known:
+        return UnknownHelper(name, list(args))
+    return F.HELPER_IMPL[F.HelperTypes(name)].parse(list(args))
+
+
+def doc_proj(ent: EntityDef) -> dict:
+    """proj_ent in the shape FgdDocOps works on: list always a sequence, res_set/res, folded helper args."""
+    p = proj_ent(ent)
+    for kv in p['kvs']:
+        if kv['list'] is None:
+            kv['list'] = []
+    p['res_set'] = p['res'] is not None
+    p['res'] = p['res'] or []
+    for h in p['helpers']:
+        h['fold'] = [a.casefold() for a in h['a']]
+    return p
+
+
+def build_ent(p: dict) -> EntityDef:
+    """The definition a projection describes, built through the API."""
+    ent = EntityDef(EntityTypes(p['kind']), p['cls'])
+    ent.is_alias = p['alias']
+    ent.bases = list(p['bases'])
+    ent.desc = p['desc']
+    ent.kv_order = list(p['order'])
+    for h in p['helpers']:
+        ent.helpers.append(make_helper(h['n'], h['a'], h.get('known', True)))
+    for kv in p['kvs']:
+        typ = kv['type'] if kv['custom'] else F.VALUE_TYPE_LOOKUP[kv['type']]
+        lst = None
+        if typ is ValueTypes.SPAWNFLAGS:
+            lst = [(int(it['b']), it['n'], it['d'], frozenset(it['tags'])) for it in kv['list']]
+        elif typ is ValueTypes.CHOICES:
+            lst = [(it['v'], it['n'], frozenset(it['tags'])) for it in kv['list']]
+        ent.keyvalues.setdefault(kv['key'], {})[frozenset(kv['tags'])] = KVDef(
+            kv['name'], typ, kv['disp'], kv['def'], kv['desc'], lst, kv['ro'], kv['rep'])
+    for field, target in (('ins', ent.inputs), ('outs', ent.outputs)):
+        for io_p in p[field]:
+            typ = io_p['type'] if io_p['custom'] else F.VALUE_TYPE_LOOKUP[io_p['type']]
+            target.setdefault(io_p['key'], {})[frozenset(io_p['tags'])] = IODef(io_p['name'], typ, io_p['desc'])
+    if p['res_set']:
+        ent.resources = [Resource(r['file'], FileType[r['type']], frozenset(r['tags'])) for r in p['res']]
+    return ent
+
+
+def sha(text: str) -> str:
+    return hashlib.sha1(text.encode('utf8', 'surrogatepass')).hexdigest()[:16]
+
+
+def parse_text(text: str, custom_types: bool) -> FGD:
+    fsys = VirtualFileSystem({'verif.fgd': text})
+    fgd = FGD()
+    import warnings
+    with warnings.catch_warnings():
+        warnings.simplefilter('ignore')
+        fgd.parse_file(fsys, fsys['verif.fgd'], eval_bases=False, ignore_unknown_valuetype=custom_types)
+    return fgd
+
+
+def ent_record(ent: EntityDef, cs: bool, ls: bool, src: str, text: str | None = None) -> dict:
+    """Export one definition, parse the text, export what was parsed."""
+    orig = doc_proj(ent)
+    if text is None:
+        buf = io.StringIO()
+        try:
+            ent.export(buf, label_spawnflags=ls, custom_syntax=cs)
+            text = buf.getvalue()
+        except Exception as exc:   # the writer itself fails
+            return {'k': 'ent', 'opts': {'cs': cs, 'ls': ls}, 'orig': orig, 'lines': [], 'err': 'export ' + type(exc).__name__,
+                    'h1': '', 'h2': '', 'sig': {'kind': 'doc', 'action': 'export', 'src': src, 'cs': cs, 'ls': ls}}
+    lines = text.split('\n')
+    if lines and lines[-1] == '':
+        lines.pop()
+    rec = {'k': 'ent', 'opts': {'cs': cs, 'ls': ls}, 'orig': orig, 'lines': lines, 'err': '', 'h1': sha(text), 'h2': '',
+           'sig': {'kind': 'doc', 'action': 'export_parse', 'src': src, 'cs': cs, 'ls': ls}}
+    custom = any(x['custom'] for x in orig['kvs'] + orig['ins'] + orig['outs'])
+    try:
+        fgd = parse_text(text, custom)
+        got = fgd.entities[ent.classname.casefold()] if len(fgd.entities) == 1 else None
+        if got is None:
+            raise KeyError(f'{len(fgd.entities)} entities parsed')
+    except Exception as exc:
+        rec['err'] = type(exc).__name__ + ': ' + str(exc).split('\n')[0][:120]
+        return rec
+    rec['parsed'] = doc_proj(got)
+    buf = io.StringIO()
+    try:
+        got.export(buf, label_spawnflags=ls, custom_syntax=cs)
+        rec['h2'] = sha(buf.getvalue())
+    except Exception as exc:
+        rec['h2'] = 'export ' + type(exc).__name__
+    return rec
+
+
+def long_record(text: str, ext: bool, src: str) -> dict:
+    buf = io.StringIO()
+    F._write_longstring(buf, ext, text, indent='\t')
+    written = buf.getvalue()
+    secs = []
+    if written:
+        for piece in written.split(' +\n\t'):
+            secs.append(piece[1:-1] if len(piece) >= 2 and piece[0] == '"' and piece[-1] == '"' else '<unquoted>' + piece)
+    rec = {'k': 'long', 'ext': ext, 'text': text, 'secs': secs, 'err': '', 'back': '',
+           'sig': {'kind': 'long', 'action': 'write_longstring', 'src': src, 'ext': ext}}
+    # the real reader on a keyvalue whose description is that string
+    doc = '@PointClass = verif_e\n\t[\n\tk(string) : "D" : "d" : ' + written + '\n\t]\n'
+    try:
+        fgd = parse_text(doc, False)
+        rec['back'] = fgd['verif_e'].keyvalues['k'][frozenset()].desc
+    except Exception as exc:
+        rec['err'] = type(exc).__name__
+    return rec
+
+
+# --------------------------------------------------------------------------- random definitions
+WORDS = ['Name', 'Target', 'the', 'of', 'Start', 'Disabled', 'speed', '(0-255)', 'x:', 'A/B', 'caf\xe9', '100%', '#1']
+
+
+def rnd_text(rng: random.Random, special: bool, longish: bool = False) -> str:
+    r = rng.random()
+    if r < 0.12:
+        return ''
+    n = rng.randint(1, 6) if not longish else rng.randint(150, 700)
+    out = []
+    for _ in range(n):
+        w = rng.choice(WORDS)
+        if special and rng.random() < 0.15:
+            w += rng.choice(['"', '\\', '\n', '\t', "'", '\\n', '""', '\\\\'])
+        out.append(w)
+    return ' '.join(out)
+
+
+def rnd_tags(rng: random.Random) -> list[str]:
+    r = rng.random()
+    if r < 0.7:
+        return []
+    pool = ['P2', 'TF2', 'CSGO', 'MBASE', 'INST_IO']
+    n = rng.randint(1, 3)
+    return sorted((rng.choice(['', '', '+', '!', '-']) + t) for t in rng.sample(pool, n))
+
+
+def rnd_ent(rng: random.Random, n: int, plain_safe: bool) -> dict:
+    """A random definition as a projection; plain_safe keeps strings inside what the original
+    (non-custom) syntax can express in defaults and choice lists."""
+    special = True
+    types = [t.value for t in ValueTypes if t not in (ValueTypes.SPAWNFLAGS, ValueTypes.CHOICES)]
+    kvs, order = [], []
+    for j in range(rng.randint(0, 7)):
+        name = rng.choice(['Speed', 'targetname', 'StartDisabled', 'model', 'my_key', 'Angles']) + str(j)
+        variants = [[]] if rng.random() < 0.8 else [[], ['P2'], ['+MBASE', 'TF2']][:rng.randint(2, 3)]
+        for tags in variants:
+            typ = rng.choice(types)
+            r = rng.random()
+            lst = []
+            dflt = rng.choice(['', '', '0', '1', '-5', '3.5', 'a b', 'models/x.mdl', '0 0 0'])
+            disp = rnd_text(rng, special) or 'Caption'
+            desc = rnd_text(rng, special, longish=rng.random() < 0.15)
+            if r < 0.15:
+                typ = 'choices'
+                lst = [{'v': rng.choice(['0', '1', '2', '-1', '0.5', 'on', 'a b', 'x/y']), 'n': rnd_text(rng, False) or 'Choice',
+                        'tags': rnd_tags(rng)} for _ in range(rng.randint(0, 4))]
+            kv = {'key': name.casefold(), 'name': name, 'tags': tags, 'type': typ, 'custom': False, 'disp': disp,
+                  'def': dflt, 'desc': desc, 'ro': rng.random() < 0.1, 'rep': rng.random() < 0.1, 'list': lst}
+            kvs.append(kv)
+        order.append(name.casefold())
+    if rng.random() < 0.5:
+        bits = rng.sample(range(0, 24), rng.randint(0, 5))
+        kvs.append({'key': 'spawnflags', 'name': 'spawnflags', 'tags': [], 'type': 'flags', 'custom': False,
+                    'disp': 'spawnflags', 'def': '', 'desc': '', 'ro': False, 'rep': False,
+                    'list': [{'b': str(1 << b), 'n': rnd_text(rng, special) , 'd': rng.random() < 0.5, 'tags': rnd_tags(rng)} for b in bits]})
+        order.append('spawnflags')
+    if rng.random() < 0.3:
+        rng.shuffle(order)
+    if rng.random() < 0.2:
+        order = order[:len(order) // 2]
+    ios = {}
+    for field in ('ins', 'outs'):
+        items = []
+        for j in range(rng.randint(0, 4)):
+            name = rng.choice(['Enable', 'SetSpeed', 'OnTrigger', 'Kill']) + str(j)
+            variants = [[]] if rng.random() < 0.85 else [[], ['P2']]
+            for tags in variants:
+                items.append({'key': name.casefold(), 'name': name, 'tags': tags,
+                              'type': rng.choice([t.value for t in ValueTypes]), 'custom': False,
+                              'desc': rnd_text(rng, special, longish=rng.random() < 0.05)})
+        ios[field] = items
+    helpers = []
+    for _ in range(rng.randint(0, 3)):
+        name, variants = rng.choice(HELPER_VARIANTS)
+        if name == 'orderby':
+            continue
+        helpers.append({'n': name, 'a': list(rng.choice(variants)), 'known': True})
+    if rng.random() < 0.1:
+        helpers.append({'n': 'vendorhelper', 'a': ['a', 'b c'], 'known': False})
+    res_set = rng.random() < 0.4
+    res_types = [t.name for t in FileType if t.name not in ('SOUNDSCRIPT', 'PARTICLE_FILE', 'PARTICLE_SYSTEM')]
+    res = [{'type': rng.choice(res_types), 'file': rng.choice(['models/a.mdl', 'Weapon.Fire', 'a b', 'x"y\\z']),
+            'tags': rnd_tags(rng)} for _ in range(rng.randint(0, 3))] if res_set else []
+    nb = rng.choice([0, 0, 1, 2])
+    return {'cls': f'verif_ent_{n}', 'kind': rng.choice([k.value for k in EntityTypes]), 'alias': False,
+            'bases': [f'BaseThing{b}' for b in range(nb)], 'helpers': helpers,
+            'desc': rnd_text(rng, special, longish=rng.random() < 0.1), 'order': order, 'kvs': kvs,
+            'ins': ios['ins'], 'outs': ios['outs'], 'res_set': res_set, 'res': res}
+
+
+def doc_cases(case_file: str, out: hlib.RecWriter, stats: dict) -> None:
+    """Every (definition, options) pair TLC enumerated, built through the API and run."""
+    for case in json.load(open(case_file)):
+        ent = build_ent(case['doc'])
+        rec = ent_record(ent, case['opts']['cs'], case['opts']['ls'], 'mc')
+        if rec['orig'] != {**case['doc'], 'helpers': rec['orig']['helpers']}:
+            # the built definition must be the model's one (helpers carry implementation detail 'v')
+            diff = [k for k in case['doc'] if k != 'helpers' and rec['orig'].get(k) != case['doc'][k]]
+            raise SystemExit(f'MACHINERY: built definition differs from the model case in {diff}')
+        out.write(rec)
+        stats['cases'] = stats.get('cases', 0) + 1
+
+
+def doc_random(out: hlib.RecWriter, stats: dict) -> None:
+    rng = random.Random(hlib.seed() * 65537 + 1600)
+    thorough = hlib.tier() == 'thorough'
+    for n in range(1500 if thorough else 150):
+        p = rnd_ent(rng, n, False)
+        ent = build_ent(p)
+        for cs, ls in ((True, True), (True, False)) + (((False, True),) if n % 3 == 0 else ()):
+            out.write(ent_record(ent, cs, ls, 'random'))
+    # every helper shape on its own, both syntaxes
+    n = 0
+    for name, variants in HELPER_VARIANTS:
+        for args in variants:
+            n += 1
+            p = {'cls': f'verif_h_{n}', 'kind': 'pointclass', 'alias': False, 'bases': [], 'desc': '',
+                 'helpers': [{'n': name, 'a': args, 'known': True}], 'order': ['k1', 'k2'],
+                 'kvs': [{'key': k, 'name': k, 'tags': [], 'type': 'integer', 'custom': False, 'disp': k.upper(), 'def': '',
+                          'desc': '', 'ro': False, 'rep': False, 'list': []} for k in ('k1', 'k2')],
+                 'ins': [], 'outs': [], 'res_set': False, 'res': []}
+            ent = build_ent(p)
+            for cs in (True, False):
+                out.write(ent_record(ent, cs, True, 'helper'))
+    stats['random'] = out.n
+
+
+def long_strings(out: hlib.RecWriter, stats: dict) -> None:
+    """_write_longstring at the real LIMIT: escapes placed around positions 999..1001, newlines
+    below and above the 128 threshold, no spaces / spaces, 900..5000 characters; plus short ones."""
+    rng = random.Random(hlib.seed() * 31337 + 1601)
+    thorough = hlib.tier() == 'thorough'
+    specials = ['"', '\\', '\n', '\t', "'"]
+    for text in ['', 'a', 'a b', '"', '\\', 'a\nb', "it's", 'x' * 1000, 'x' * 1001, ('word ' * 250), 'y' * 2500]:
+        for ext in (True, False):
+            if not ext and '\\' in text:
+                continue
+            out.write(long_record(text, ext, 'fixed'))
+    for n in range(600 if thorough else 90):
+        ext = rng.random() < 0.7
+        spaced = rng.random() < 0.5
+        length = rng.randint(900, 5000 if thorough else 2600)
+        chars = []
+        filler = 'abcdefgh' + (' ' if spaced else '')
+        for _ in range(length):
+            chars.append(rng.choice(filler))
+        # special characters near the split points of the escaped text
+        pool = specials if ext else ['"', '\n']
+        for centre in (1000, 2000, 3000):
+            for _ in range(rng.randint(0, 3)):
+                pos = centre + rng.randint(-6, 2)
+                if 0 <= pos < length:
+                    chars[pos] = rng.choice(pool)
+        if rng.random() < 0.5:
+            chars[rng.randint(0, min(length - 1, 200))] = '\n'     # an early newline (below/above 128)
+        for _ in range(rng.randint(0, 4)):
+            chars[rng.randrange(length)] = rng.choice(pool)
+        out.write(long_record(''.join(chars), ext, 'random'))
+    stats['long'] = out.n
+
+
+def bundled(out: hlib.RecWriter, stats: dict) -> None:
+    """The whole bundled database as one long trace: load, export everything to one file, parse it,
+    compare every definition, export again.  The file text is cut into per-entity parts by the
+    lengths of the individual exports; TLC checks every part against ExportLines and the sum."""
+    thorough = hlib.tier() == 'thorough'
+    F._ENGINE_DB = None
+    whole = FGD.engine_dbase()
+    want = len(EntityDef.engine_classes())
+    sig = {'kind': 'file', 'action': 'bundled', 'src': 'bundled'}
+    out.write({'k': 'file', 'step': 'load', 'count': len(whole.entities), 'want': want, 'sig': dict(sig, action='load')})
+    combos = [(True, True), (False, True), (True, False), (False, False)] if thorough else [[(True, True)], [(False, False)], [(True, False)]][hlib.seed() % 3]
+    for cs, ls in combos:
+        text = whole.export(label_spawnflags=ls, custom_syntax=cs)
+        order = list(whole.sorted_ents())
+        header = text.index('\n@') if '\n@' in text else len(text)
+        pos = header
+        order_rec = []
+        parts = {}
+        for ent in order:
+            buf = io.StringIO()
+            ent.export(buf, label_spawnflags=ls, custom_syntax=cs)
+            own = buf.getvalue()
+            part = text[pos:pos + 1 + len(own)]
+            parts[ent.classname] = part[1:] if part[:1] == '\n' else '<no blank line>' + part
+            pos += 1 + len(own)
+            order_rec.append({'cls': ent.classname, 'cp': [ord(c) for c in ent.classname],
+                              'bases': [b.classname if isinstance(b, EntityDef) else b for b in ent.bases],
+                              'len': len(own)})
+        out.write({'k': 'file', 'step': 'order', 'opts': {'cs': cs, 'ls': ls}, 'order': order_rec, 'count': len(whole.entities),
+                   'header': header, 'total': len(text), 'sig': dict(sig, action='export', cs=cs, ls=ls)})
+        # parse the whole file
+        parsed = None
+        try:
+            parsed = parse_text(text, False)
+            out.write({'k': 'file', 'step': 'parse', 'opts': {'cs': cs, 'ls': ls}, 'err': '', 'count': len(parsed.entities),
+                       'want': len(whole.entities), 'sig': dict(sig, action='parse', cs=cs, ls=ls)})
+        except Exception as exc:
+            msg = str(exc)
+            line_no = int(msg.split('line ')[1].split(',')[0]) if 'line ' in msg else 0
+            lines = text.split('\n')
+            out.write({'k': 'file', 'step': 'parse', 'opts': {'cs': cs, 'ls': ls}, 'err': type(exc).__name__ + ': ' + msg.split('\n')[0],
+                       'count': 0, 'want': len(whole.entities), 'near': lines[max(0, line_no - 2):line_no],
+                       'sig': dict(sig, action='parse', cs=cs, ls=ls)})
+        # every definition: its part of the file text, and what came back
+        for ent in order:
+            if parsed is not None:
+                rec = ent_record(ent, cs, ls, 'bundled', text=parts[ent.classname])
+                got = parsed.entities.get(ent.classname.casefold())
+                if got is not None:
+                    rec['parsed'] = doc_proj(got)
+            else:
+                rec = ent_record(ent, cs, ls, 'bundled', text=parts[ent.classname])
+            out.write(rec)
+        if parsed is not None:
+            text2 = parsed.export(label_spawnflags=ls, custom_syntax=cs)
+            out.write({'k': 'file', 'step': 'reexport', 'opts': {'cs': cs, 'ls': ls}, 'h1': sha(text), 'h2': sha(text2),
+                       'sig': dict(sig, action='reexport', cs=cs, ls=ls)})
+    F._ENGINE_DB = None
+    stats['bundled'] = out.n
+
+
+def binary(out: hlib.RecWriter, stats: dict) -> None:
+    """serialise()/unserialise(): the bundled definitions plus generated engine-format ones (riding
+    along, so that the writer has its 512 shared strings), every definition compared after loading
+    one at a time in a seeded order; definitions the format cannot hold must be refused."""
+    rng = random.Random(hlib.seed() * 7 + 1602)
+    thorough = hlib.tier() == 'thorough'
+    F._ENGINE_DB = None
+    whole = FGD.engine_dbase()
+    F._ENGINE_DB = None
+    extra = []
+    types = [t.value for t in ValueTypes if t not in (ValueTypes.CHOICES,)]
+    for n in range(200 if thorough else 40):
+        p = rnd_ent(rng, n, True)
+        p['cls'] = f'verif_bin_{n}'
+        p['bases'] = [rng.choice(['prop_dynamic', 'info_target', 'func_door'])] if rng.random() < 0.3 else []
+        p['alias'] = bool(p['bases']) and rng.random() < 0.5
+        p['kvs'] = [kv for kv in p['kvs'] if not kv['tags'] and kv['type'] != 'choices']
+        seen = set()
+        p['kvs'] = [kv for kv in p['kvs'] if not (kv['key'] in seen or seen.add(kv['key']))]
+        for kv in p['kvs']:
+            if kv['type'] == 'flags':
+                for it in kv['list']:
+                    it['tags'] = []
+        for field in ('ins', 'outs'):
+            seen = set()
+            p[field] = [x for x in p[field] if not x['tags'] and not (x['key'] in seen or seen.add(x['key']))]
+        ent = build_ent(p)
+        ent.bases = [whole[b] for b in p['bases']]
+        whole.entities[ent.classname.casefold()] = ent
+        extra.append(ent)
+    before = {key: doc_proj(ent) for key, ent in whole.entities.items()}
+    buf = io.BytesIO()
+    sig = {'kind': 'bin', 'action': 'serialise', 'src': 'bundled+random'}
+    try:
+        with contextlib.redirect_stdout(io.StringIO()):
+            EDB.serialise(whole, buf)
+    except Exception as exc:
+        for key, p in before.items():
+            out.write({'k': 'bin', 'orig': p, 'err': type(exc).__name__, 'root': '_CBaseEntity_', 'sig': sig})
+        return
+    db = EDB.unserialise(io.BytesIO(buf.getvalue()))
+    keys = sorted(before)
+    rng.shuffle(keys)
+    if not thorough:
+        keys = [k for k in keys if k.startswith('verif_bin_')] + keys[:400]
+    for key in keys:
+        p = before[key]
+        try:
+            got = db.get_ent(p['cls'])
+            out.write({'k': 'bin', 'orig': p, 'got': doc_proj(got), 'err': '', 'root': '_CBaseEntity_',
+                       'sig': dict(sig, src='random' if key.startswith('verif_bin_') else 'bundled')})
+        except Exception as exc:
+            out.write({'k': 'bin', 'orig': p, 'err': type(exc).__name__, 'root': '_CBaseEntity_', 'sig': sig})
+    # what the format cannot hold is refused, not silently altered
+    for what in ('tags', 'choices', 'iotags'):
+        F._ENGINE_DB = None
+        fgd = FGD.engine_dbase()
+        F._ENGINE_DB = None
+        ent = EntityDef(EntityTypes.POINT, 'verif_refused')
+        if what == 'tags':
+            ent.keyvalues['k'] = {frozenset({'P2'}): KVDef('k', ValueTypes.INT, 'K')}
+        elif what == 'choices':
+            ent.keyvalues['k'] = {frozenset(): KVDef('k', ValueTypes.CHOICES, 'K', '0', '', [('0', 'No', frozenset())])}
+        else:
+            ent.inputs['i'] = {frozenset({'P2'}): IODef('I')}
+        fgd.entities['verif_refused'] = ent
+        err = ''
+        try:
+            with contextlib.redirect_stdout(io.StringIO()):
+                EDB.serialise(fgd, io.BytesIO())
+        except ValueError:
+            err = 'ValueError'
+        except Exception as exc:
+            err = type(exc).__name__
+        out.write({'k': 'bin', 'orig': doc_proj(ent), 'err': err, 'root': '_CBaseEntity_', 'sig': dict(sig, action='refuse', src=what)})
+    # a small FGD (fewer than 512 distinct strings) must serialise too
+    small = FGD()
+    small.entities['_cbaseentity_'] = EntityDef(EntityTypes.BASE, '_CBaseEntity_')
+    e1 = EntityDef(EntityTypes.POINT, 'verif_small')
+    e1.keyvalues['k'] = {frozenset(): KVDef('k', ValueTypes.INT, 'K', '1')}
+    small.entities['verif_small'] = e1
+    p = doc_proj(e1)
+    try:
+        b2 = io.BytesIO()
+        with contextlib.redirect_stdout(io.StringIO()):
+            EDB.serialise(small, b2)
+        got = EDB.unserialise(io.BytesIO(b2.getvalue())).get_ent('verif_small')
+        out.write({'k': 'bin', 'orig': p, 'got': doc_proj(got), 'err': '', 'root': '_CBaseEntity_', 'sig': dict(sig, src='small')})
+    except BaseException as exc:
+        out.write({'k': 'bin', 'orig': p, 'err': type(exc).__name__, 'root': '_CBaseEntity_', 'sig': dict(sig, src='small')})
+    stats['bin'] = out.n
+
+
+def doc_replay(replay_file: str, out: hlib.RecWriter) -> None:
+    rp = json.load(open(replay_file))
+    rec = rp['record']
+    if rec['k'] == 'ent':
+        ent = build_ent(rec['orig'])
+        out.write(ent_record(ent, rec['opts']['cs'], rec['opts']['ls'], 'replay'))
+    elif rec['k'] == 'long':
+        out.write(long_record(rec['text'], rec['ext'], 'replay'))
+    else:
+        # whole-file and binary records depend on the bundled database: run those parts again
+        stats: dict = {}
+        if rec['k'] == 'bin':
+            binary(out, stats)
+        else:
+            bundled(out, stats)
+
+
 def main() -> None:
     mode = sys.argv[1]
     stats: dict = {}
@@ -453,6 +948,18 @@ def main() -> None:
         db_singles(sys.argv[2], out, stats)
     elif mode == 'dbreplay':
         db_replay(sys.argv[2], out)
+    elif mode == 'doccases':
+        doc_cases(sys.argv[2], out, stats)
+    elif mode == 'docrandom':
+        doc_random(out, stats)
+    elif mode == 'long':
+        long_strings(out, stats)
+    elif mode == 'bundled':
+        bundled(out, stats)
+    elif mode == 'binary':
+        binary(out, stats)
+    elif mode == 'docreplay':
+        doc_replay(sys.argv[2], out)
     else:
         raise SystemExit(2)
     out.close()
